@@ -54,7 +54,7 @@ def strtolC (s : Bytes) (base : Nat) : StrtolOut :=
 
 /-- `cfg_digits_ok` of confuse.c -/
 def digitsOk (s : Bytes) (radix : Nat) : Bool :=
-  if radix == 0 then
+  if radix == 10 then
     (match (splitSign s).2 with
      | c :: _ => isDec c
      | [] => false)
@@ -70,7 +70,7 @@ def radixOf (value : Bytes) : Nat × Bytes :=
   | 48 :: 98 :: r2 => (2, r2)
   | 48 :: 120 :: r2 => (16, r2)
   | 48 :: r => (8, r)
-  | _ => (0, value)
+  | _ => (10, value)
 
 /-- digit check + `strtol` full-match + range check -/
 def convIntWith (radix : Nat) (intStr : Bytes) : Except ConvErr Int :=
